@@ -89,9 +89,6 @@ class TypeRegistry:
                 self._cache = {}
             return f
 
-        # before runtime, type will be compiled and applied
-        # if transformer is defined after the validator compiled
-        # it will not take effect
         return decorator
 
     def resolve(self, t: type) -> Optional[Callable]:
